@@ -51,7 +51,19 @@ pub fn key_text(k: u8) -> &'static str {
     }
 }
 
+/// key 3 is a long-term credential (user, realm, password); 0..=2 are short-term passwords
+pub fn key_bytes(k: u8) -> Vec<u8> {
+    if k == 3 {
+        wire::Creds::Long { user: "lt-user".into(), realm: "lt.realm".into(), pass: "lt-pass".into() }.key()
+    } else {
+        key_text(k).as_bytes().to_vec()
+    }
+}
+
 pub fn creds(k: u8) -> MessageIntegrityCredentials {
+    if k == 3 {
+        return LongTermCredentials::new("lt-user".to_string(), "lt-pass".to_string(), "lt.realm".to_string()).into();
+    }
     ShortTermCredentials::new(key_text(k).to_string()).into()
 }
 
@@ -168,14 +180,14 @@ pub fn response_wire(id: u8, class: u8, auth: Auth) -> Vec<u8> {
     wire::append_raw(&mut b, 0x8022, b"srv");
     match auth {
         Auth::None => {}
-        Auth::Sha1(k) => wire::append_mi(&mut b, key_text(k).as_bytes()),
-        Auth::Sha256(k) => wire::append_mi256(&mut b, key_text(k).as_bytes(), 32),
+        Auth::Sha1(k) => wire::append_mi(&mut b, &key_bytes(k)),
+        Auth::Sha256(k) => wire::append_mi256(&mut b, &key_bytes(k), 32),
         Auth::Both(k) => {
-            wire::append_mi(&mut b, key_text(k).as_bytes());
-            wire::append_mi256(&mut b, key_text(k).as_bytes(), 32);
+            wire::append_mi(&mut b, &key_bytes(k));
+            wire::append_mi256(&mut b, &key_bytes(k), 32);
         }
         Auth::Sha1Flipped(k) => {
-            wire::append_mi(&mut b, key_text(k).as_bytes());
+            wire::append_mi(&mut b, &key_bytes(k));
             let l = b.len();
             b[l - 7] ^= 0x04;
         }
